@@ -24,6 +24,16 @@ CHECKS = {
          "Every byte string up to length 4/5 over a 54-symbol alphabet, every operator cluster, every short number text, every Unicode scalar value in every literal form, every \\uXXXX, all invalid UTF-8 sequences over 19 border bytes and all small text blocks are lexed by a reference lexer written from the grammar and by the implementation; kinds, values and spans must agree, spans must tile the input, and lex_to_eof(false) must equal lex_to_eof(true) minus trivia.",
          "Trusted: ref_lex as the lexical grammar; only rejection (not the error kind) is compared for invalid inputs.",
          "DESIGN.md §4 C14"),
+ "C15": ("model_checking",
+         "exhaustive enumeration of syntax trees printed by a precedence-table printer (model) and re-parsed; exhaustive token sequences for error location",
+         "All operator trees with <=3 binary operators over the 19 operators (with unary/postfix decorations), every syntactic form in every context and every corpus tree up to the node bound are printed with minimal, full and noisy syntax and parsed by the implementation: trees must be equal modulo parentheses and every node span must equal the byte range of its first..last token as recorded by the printer; for every token sequence up to the bound a syntax error must carry the span of a token of the input and describe that token.",
+         "Trusted: the printer's precedence table/associativity are the specification's.",
+         "DESIGN.md §4 C15"),
+ "C16": ("model_checking",
+         "exhaustive enumeration of span-manager layouts; every failing case of the bounded corpora rendered through the real report code; every max_trace value per trace length",
+         "Span ids: all sequences of <=3 contexts over boundary lengths x boundary spans round-trip. Diagnostics: every failing program/token sequence/byte string of the bounded corpora and a grid of error kinds x position classes is checked for spans inside the source and rendered through Session (hook H3) plain and coloured; locations must equal span starts, trace items must be complete, and --max-trace cropping is checked for every value 0..T+1.",
+         "Trusted: hook H3 captures what would be printed; columns compared exactly only on printable-ASCII line prefixes.",
+         "DESIGN.md §4 C16"),
 }
 def main():
     hooks = subprocess.run(["git","-C","/repo","log","--format=%H %s"],capture_output=True,text=True).stdout.splitlines()
